@@ -11,6 +11,7 @@ package main
 import (
 	"fmt"
 	"go/ast"
+	"go/constant"
 	"go/types"
 	"strings"
 )
@@ -63,16 +64,79 @@ func extNonNil(key string) bool {
 	if strings.HasPrefix(key, "jen.") {
 		return true
 	}
+	if strings.HasPrefix(key, "go/types.") {
+		return !extMayBeNil[key]
+	}
 	return false
+}
+
+// go/types accessors that may return nil (everything else in go/types is assumed non-nil
+// for the well-formed types produced by a successful type check)
+var extMayBeNil = map[string]bool{
+	"go/types.object.Pkg": true, "go/types.Object.Pkg": true, "go/types.TypeName.Pkg": true, "go/types.Var.Pkg": true,
+	"go/types.Func.Pkg": true, "go/types.Const.Pkg": true,
+	"go/types.Scope.Lookup": true, "go/types.Scope.Parent": true, "go/types.Scope.LookupParent": true,
+	"go/types.Signature.Recv": true, "go/types.Signature.TypeParams": true, "go/types.Signature.RecvTypeParams": true,
+	"go/types.Named.TypeArgs": true, "go/types.Named.TypeParams": true, "go/types.Signature.Params": true, "go/types.Signature.Results": true,
+	"go/types.Unalias": true, "go/types.object.Parent": true, "go/types.Object.Parent": true,
+	"go/types.Package.Scope": false,
+}
+
+// external methods that are safe to call on a nil receiver
+var extNilSafeRecv = map[string]bool{
+	"go/types.Tuple.Len": true, "go/types.TypeParamList.Len": true, "go/types.TypeList.Len": true,
+	"go/types.Tuple.At": false,
 }
 
 func (u *Unit) callExternal(call *ast.CallExpr, f *types.Func, recv *Val, args []Val, st *State) []Val {
 	key := extKey(f)
-	sig := f.Type().(*types.Signature)
 	u.usedExt[key] = true
 	if res, ok := u.extSpecial(call, key, f, recv, args, st); ok {
 		return res
 	}
+	return u.callExternalDefault(call, key, f, recv, args, st)
+}
+
+func constantString(v constant.Value) string {
+	if v.Kind() == constant.String {
+		return constant.StringVal(v)
+	}
+	return ""
+}
+
+// formatPieces: the literal text between the verbs of a format string (pieces of length >= 4)
+func formatPieces(format string) []string {
+	var out []string
+	var cur strings.Builder
+	flush := func() {
+		if cur.Len() >= 4 {
+			out = append(out, cur.String())
+		}
+		cur.Reset()
+	}
+	for i := 0; i < len(format); i++ {
+		if format[i] == '%' {
+			if i+1 < len(format) && format[i+1] == '%' {
+				cur.WriteByte('%')
+				i++
+				continue
+			}
+			flush()
+			// skip flags/width up to the verb
+			i++
+			for i < len(format) && strings.IndexByte("+-# 0123456789.[]*", format[i]) >= 0 {
+				i++
+			}
+			continue
+		}
+		cur.WriteByte(format[i])
+	}
+	flush()
+	return out
+}
+
+func (u *Unit) callExternalDefault(call *ast.CallExpr, key string, f *types.Func, recv *Val, args []Val, st *State) []Val {
+	sig := f.Type().(*types.Signature)
 	var res []Val
 	var as, ss []string
 	if recv != nil {
@@ -161,6 +225,26 @@ func (u *Unit) extSpecial(call *ast.CallExpr, key string, f *types.Func, recv *V
 		if !u.noSafety && !u.inSpec {
 			u.oblige(st, u.site(call, "call#strings.Repeat")+"#pre#1", "call-pre", "(>= "+args[1].T+" 0)", []string{"C13"}, nil, "strings.Repeat panics on a negative count", call)
 			st.assume("(>= " + args[1].T + " 0)")
+		}
+		return nil, false
+	case "fmt.Sprintf":
+		// the result contains every literal piece of a constant format string
+		if call != nil && len(call.Args) > 0 {
+			if tv, ok := u.info.Types[call.Args[0]]; ok && tv.Value != nil && !u.inSpec {
+				format := constantString(tv.Value)
+				res := u.callExternalDefault(call, key, f, recv, args, st)
+				seenTok := map[string]bool{}
+				for _, piece := range formatPieces(format) {
+					st.assume("(str.contains " + res[0].T + " " + strLit(piece) + ")")
+					for _, tok := range strings.Fields(piece) {
+						if len(tok) >= 8 && !seenTok[tok] {
+							seenTok[tok] = true
+							st.assume("(str.contains " + res[0].T + " " + strLit(tok) + ")")
+						}
+					}
+				}
+				return res, true
+			}
 		}
 		return nil, false
 	case "universe.error.Error":
